@@ -324,36 +324,13 @@ def _cmp_bound(ifs, ex, tu, target):
     return False
 
 
-def run(tier='quick'):
-    prog = program.load()
-    chk = Check('C03', tier)
-    chk.units = len(prog.tus)
-    S1 = chk.rule('S1', 'for each of the 11 codecs the emission grammar of the encoder and the '
-                        'consumption grammar of the decoder (both read from the AST, helpers inlined) '
-                        'agree item by item: primitive kind, logical field, repeat count source, byte '
-                        'runs', floor=11)
-    S2 = chk.rule('S2', 'a container length narrowed into a one-byte wire field is dominated by a range '
-                        'guard that throws (a label longer than 255 bytes must be rejected, not written '
-                        'with a truncated length)', floor=4)
-    S3 = chk.rule('S3', 'extent equation: the number of bytes an encoder writes, as a linear form in '
-                        'container sizes and label lengths, equals the size it allocated - for all values, '
-                        'or under a dominating guard that throws otherwise', floor=11)
-    S4 = chk.rule('S4', 'the constant that encodes an absent optional is not a legal present value: '
-                        'enum-typed fields are compared with every enumerator; the -1 empty-slot offsets '
-                        'are the reserved encodings the property names; numeric 0-is-unknown conventions '
-                        'are an enumerated table', floor=6)
-    S5 = chk.rule('S5', 'every write path of the 1.x PerformanceData blobs applies the '
-                        'decode-after-encode guard (or the codec guards itself)', floor=2)
-    S6 = chk.rule('S6', 'the shared compressor emits one complete deflate stream for every payload size '
-                        '(all input fed, last call with Z_FINISH, pending output never dropped) and the '
-                        'decompressor never drops pending output: finite evaluation of the chunk loops',
-                  floor=15)
-    chk.assume('zlib inflate(deflate(x)) == x; memcpy of a double preserves its bit pattern (C02-L1)')
-
-    ex = codec.Extractor(prog)
-    grams = codec.all_grammars(prog)
-    if len(grams) < 11:
-        raise AnalysisBroken('only %d codec pairs found' % len(grams))
+def symmetry(prog, chk, S1, grams=None):
+    """S1 for every codec pair: the emission grammar of the encoder and the consumption grammar of
+    the decoder agree item by item, and every stored field is written from itself (shared with C06)."""
+    if grams is None:
+        grams = codec.all_grammars(prog)
+        if len(grams) < 11:
+            raise AnalysisBroken('only %d codec pairs found' % len(grams))
     for name, ge, gd in grams:
         chk.analysed(ge.func)
         chk.analysed(gd.func)
@@ -410,6 +387,180 @@ def run(tier='quick'):
         else:
             chk.ok(S1, name, locstr(ge.func.node), detail={'encoder_paths': len(les), 'items': len(les[0])})
 
+
+
+def fresh_elements(prog, chk, rid, min_instances=5):
+    """An element appended to a result container inside a loop is built from a fresh object: either
+    the local is declared inside the loop body, or every member of its record is assigned at the top
+    level of the body in each iteration.  A scratch object hoisted out of the loop carries the
+    members that are assigned only conditionally (a label read when its length is non-zero) from one
+    element into the next."""
+    n = 0
+    for f in prog.functions.values():
+        if f.body is None or f.is_pattern or not prog.in_repo(f.file):
+            continue
+        fdecls = {x.get('id'): x for x in walk(f.body) if x.get('kind') == 'VarDecl'}
+        for lp in walk(f.body):
+            if lp.get('kind') not in ('ForStmt', 'WhileStmt', 'DoStmt', 'CXXForRangeStmt'):
+                continue
+            body = children(lp)[0] if lp['kind'] == 'DoStmt' else children(lp)[-1]
+            inner = {x.get('id') for x in walk(body) if x.get('kind') == 'VarDecl'}
+            for x in walk(body):
+                if not (x.get('kind') == 'CXXMemberCallExpr' and strip(children(x)[0]).get('name') in (
+                        'push_back', 'emplace_back', 'push_front', 'emplace_front')):
+                    continue
+                for a in children(x)[1:]:
+                    r = strip(a, explicit=True)
+                    while r.get('kind') in ('CXXConstructExpr', 'MaterializeTemporaryExpr', 'CXXBindTemporaryExpr',
+                                            'ImplicitCastExpr') and len(children(r)) == 1:
+                        r = strip(children(r)[0], explicit=True)
+                    if r.get('kind') == 'CallExpr' and len(children(r)) > 1 and \
+                            (strip(children(r)[0]).get('referencedDecl') or {}).get('name') == 'move':
+                        r = strip(children(r)[1], explicit=True)
+                    if r.get('kind') != 'DeclRefExpr':
+                        continue
+                    vid = (r.get('referencedDecl') or {}).get('id')
+                    d = fdecls.get(vid)
+                    if d is None:
+                        continue
+                    rec = prog.records.get(program.norm_type_name(d.get('type') or ''))
+                    if rec is None or not rec.fields:
+                        continue
+                    n += 1
+                    short = '::'.join((f.qualname or '').split('::')[-2:])
+                    inst = '%s: element %s appended at %s is built afresh in each iteration' % (short, d.get('name'), locstr(x))
+                    if vid in inner:
+                        chk.ok(rid, inst, locstr(x))
+                        continue
+                    # declared outside the loop: members assigned unconditionally per iteration
+                    assigned = set()
+                    top = children(body) if body.get('kind') == 'CompoundStmt' else [body]
+                    for st in top:
+                        if st.get('kind') in ('IfStmt', 'ForStmt', 'WhileStmt', 'DoStmt', 'SwitchStmt', 'CXXTryStmt'):
+                            continue
+                        for y in walk(st):
+                            if y.get('kind') == 'MemberExpr':
+                                b = strip(children(y)[0]) if children(y) else {}
+                                if b.get('kind') == 'DeclRefExpr' and (b.get('referencedDecl') or {}).get('id') == vid:
+                                    assigned.add(y.get('name'))
+                    missing = [fd.get('name') for fd in rec.fields if fd.get('name') not in assigned]
+                    if not missing:
+                        chk.ok(rid, inst + ' (declared outside the loop, every member touched unconditionally)', locstr(x))
+                    else:
+                        chk.violation(rid, '%s|%s carried across iterations' % (short, d.get('name')), locstr(d),
+                                      '%s: %s is declared outside the loop that appends it and member(s) %s are not '
+                                      'assigned unconditionally in each iteration: an element keeps what the '
+                                      'previous element stored there, so decode(encode(x)) differs from x' % (
+                                          short, d.get('name'), missing))
+    if n < min_instances:
+        chk.fail_broken('%s: only %d loop-appended element object(s) found (expected >= %d)' % (rid, n, min_instances))
+
+
+def absence_tests(prog, chk, rid, min_instances=8):
+    """Where a decoder or read conversion chooses between a value and 'absent' (std::nullopt) by
+    comparing a stored number with a constant, the comparison is an equality with that one reserved
+    constant.  An ordering test (`offset >= 0` for `offset != -1`) turns every value on the wrong
+    side into 'absent', although the encoder stores it."""
+    def is_nullopt(n):
+        return any(x.get('kind') == 'DeclRefExpr' and (x.get('referencedDecl') or {}).get('name') == 'nullopt'
+                   for x in walk(n))
+
+    def const_side(n):
+        r = strip(n, explicit=True)
+        if literal_value(r) is not None:
+            return True
+        if r.get('kind') == 'UnaryOperator' and children(r) and literal_value(strip(children(r)[0])) is not None:
+            return True
+        ref = r.get('referencedDecl') or {}
+        return ref.get('kind') == 'VarDecl' and 'const' in (r.get('type') or '') and \
+            not any(True for _ in [0] if ref.get('name', '').islower() and False)
+
+    def rel_ops(cond):
+        out = []
+        for x in walk(cond):
+            if x.get('kind') == 'BinaryOperator' and x.get('opcode') in ('<', '<=', '>', '>=', '==', '!='):
+                a, b = children(x)
+                ta = strip(a, explicit=True).get('type') or ''
+                tb = strip(b, explicit=True).get('type') or ''
+                if 'optional' in ta or 'optional' in tb or 'iterator' in ta or 'iterator' in tb:
+                    continue
+                if const_side(a) != const_side(b):
+                    out.append((x.get('opcode'), x))
+        return out
+    n = 0
+    for f in prog.functions.values():
+        if f.body is None or f.is_pattern or not prog.in_repo(f.file):
+            continue
+        for x in walk(f.body):
+            cond = None
+            if x.get('kind') == 'ConditionalOperator':
+                c = children(x)
+                if is_nullopt(c[1]) != is_nullopt(c[2]):
+                    cond = c[0]
+            elif x.get('kind') == 'IfStmt':
+                c = children(x)
+                if len(c) == 3 and is_nullopt(c[1]) != is_nullopt(c[2]):
+                    cond = c[0]
+            if cond is None:
+                continue
+            ops = rel_ops(cond)
+            if not ops:
+                continue
+            n += 1
+            short = '::'.join((f.qualname or '').split('::')[-2:])
+            inst = '%s: value-or-absent choice at %s tests %s' % (short, locstr(x), ', '.join(o for o, _ in ops))
+            bad = [o for o, _ in ops if o not in ('==', '!=')]
+            if not bad:
+                chk.ok(rid, inst + ' (equality with the reserved constant)', locstr(x))
+            else:
+                chk.violation(rid, '%s|absence decided by an ordering test' % short, locstr(x),
+                              '%s: an ordering comparison (%s) with a constant decides between a value and '
+                              '"absent": every stored value on the other side of the constant reads back as absent, '
+                              'not only the one reserved encoding' % (inst, ', '.join(bad)))
+    if n < min_instances:
+        chk.fail_broken('%s: only %d value-or-absent choice(s) on a constant found (expected >= %d)' % (rid, n, min_instances))
+
+
+def run(tier='quick'):
+    prog = program.load()
+    chk = Check('C03', tier)
+    chk.units = len(prog.tus)
+    S1 = chk.rule('S1', 'for each of the 11 codecs the emission grammar of the encoder and the '
+                        'consumption grammar of the decoder (both read from the AST, helpers inlined) '
+                        'agree item by item: primitive kind, logical field, repeat count source, byte '
+                        'runs', floor=11)
+    S2 = chk.rule('S2', 'a container length narrowed into a one-byte wire field is dominated by a range '
+                        'guard that throws (a label longer than 255 bytes must be rejected, not written '
+                        'with a truncated length)', floor=4)
+    S3 = chk.rule('S3', 'extent equation: the number of bytes an encoder writes, as a linear form in '
+                        'container sizes and label lengths, equals the size it allocated - for all values, '
+                        'or under a dominating guard that throws otherwise', floor=11)
+    S4 = chk.rule('S4', 'the constant that encodes an absent optional is not a legal present value: '
+                        'enum-typed fields are compared with every enumerator; the -1 empty-slot offsets '
+                        'are the reserved encodings the property names; numeric 0-is-unknown conventions '
+                        'are an enumerated table', floor=6)
+    S5 = chk.rule('S5', 'every write path of the 1.x PerformanceData blobs applies the '
+                        'decode-after-encode guard (or the codec guards itself)', floor=2)
+    S6 = chk.rule('S6', 'the shared compressor emits one complete deflate stream for every payload size '
+                        '(all input fed, last call with Z_FINISH, pending output never dropped) and the '
+                        'decompressor never drops pending output: finite evaluation of the chunk loops',
+                  floor=15)
+    chk.assume('zlib inflate(deflate(x)) == x; memcpy of a double preserves its bit pattern (C02-L1)')
+
+    ex = codec.Extractor(prog)
+    grams = codec.all_grammars(prog)
+    if len(grams) < 11:
+        raise AnalysisBroken('only %d codec pairs found' % len(grams))
+    symmetry(prog, chk, S1, grams)
+    absence_tests(prog, chk, S4)
+    S7 = chk.rule('S7', 'every element a decoder (or conversion loop) appends to its result is built from a fresh '
+                        'object in that iteration: no member survives from the previous element', floor=5)
+    fresh_elements(prog, chk, S7)
+    for name, ge, gd in grams:
+        chk.analysed(ge.func)
+        chk.analysed(gd.func)
+        if ge.unknown or gd.unknown:
+            continue
         # ---- S3
         if ge.alloc is None:
             chk.unknown(S3, name, 'allocation expression not found')
